@@ -228,6 +228,7 @@ impl DecodeAttributeValue for UnknownAttributes {
 //@item stun_rs :: mod attributes > mod stun > mod unknown_attributes > impl DecodeAttributeValue for UnknownAttributes > fn decode
 //@tags C01 C02 C03 C19
 //@before "if raw_value.len() & 1 != 0"
+    proof { lemma_bitops_commute(); }
     proof { let n = raw_value.len(); assert((n & 1 != 0) == (n % 2 != 0)) by (bit_vector); }
 //@loop 1
     invariant raw_value@ == ctx.raw_value@, raw_value@.len() % 2 == 0,
